@@ -413,8 +413,15 @@ def gibbs_samplers_frame(c, iface):
             G.sample(2)
             for k in kept: c.eq(f'chain_of_{k}_returned_earlier_is_not_rewritten_by_continuing', np.asarray(first[k].samples, dtype=float), kept[k], tol=0)
         else:
-            G = cuqi.experimental.mcmc.HybridGibbs(J, {'d': cuqi.experimental.mcmc.Conjugate(), 'x': cuqi.experimental.mcmc.LinearRTO()})
+            # the block of x starts at an array that belongs to the model (the prior's own mean array) - the documented way to start a chain at a chosen
+            # point is initial_point=<array>; the sampler may read that array, never write to it
+            xmean = x.mean; xmean_before = np.array(xmean, dtype=float).copy()
+            G = cuqi.experimental.mcmc.HybridGibbs(J, {'d': cuqi.experimental.mcmc.Conjugate(), 'x': cuqi.experimental.mcmc.LinearRTO(initial_point=xmean)})
             G.warmup(2); G.sample(3)
+            kept_target = G.samplers['d'].target; kept_value = float(np.ravel(kept_target.logd(np.array([1.7])))[0])
+            G.sample(2)
+            c.eq('starting_array_taken_from_the_model_is_not_written_to', np.asarray(x.mean, dtype=float), xmean_before, tol=0)
+            c.eq('a_conditional_target_handed_out_earlier_keeps_its_value', float(np.ravel(kept_target.logd(np.array([1.7])))[0]), kept_value, tol=0)
             first = G.get_samples(); kept = {k: np.array(v.samples, dtype=float).copy() for k, v in first.items()}
             G.sample(2)
             for k in kept: c.eq(f'chain_of_{k}_returned_earlier_is_not_rewritten_by_continuing', np.asarray(first[k].samples, dtype=float), kept[k], tol=0)
